@@ -52,6 +52,13 @@ CHECKS = {
         text="Live iterators are driven by random positioning/stepping sequences with direction changes and compared "
              "(valid/key/value/status) with a model cursor after every call, while writes/compactions/file deletion proceed.",
         note="Iterator view = model version at creation or of its snapshot."),
+    "C12": dict(
+        cat="fault_enumeration", engine="faultmon+iomon", design="3/C12",
+        technique="runtime monitoring: fault injection at the libc boundary, statuses + post-fault recovery checked against the acknowledged history (+ASan/UBSan pass)",
+        text="One fault rule per run: (libc call class, file class, n-th occurrence) x {one-shot, persistent} x errno x "
+             "{clean, short write}, enumerated from a reference run; the process must not crash or hang, reads stay "
+             "correct, and after the fault clears both close+reopen and a kill image hold every batch that returned OK.",
+        note="Faults at the libc boundary of this build; one rule per run; single writer."),
     "C13": dict(
         cat="exploration", engine="histmon+iomon", design="3/C13",
         technique="runtime monitoring: libc-boundary I/O trace monitors + exact directory listing at quiescent points",
